@@ -12,3 +12,6 @@ import (
 const bootHook = true
 
 func firstBootImpl(h types.ConsensusHelper) bool { return core.VerifGroupChainFirstBoot(h) }
+
+func firstBelowImpl(x uint64) *types.Group { return core.VerifGroupChainFirstBelow(x) }
+func topHeightImpl() uint64                { return core.VerifGroupChainTopHeight() }
